@@ -662,6 +662,32 @@ func genC09Scenario(c *Ctx, r *rand.Rand) *c09Scenario {
 		}
 		sc.Files = append(sc.Files, f)
 	}
+	if r.IntN(4) == 0 {
+		// a second top-level journal that nobody includes (its name sorts after the root's, so the
+		// root chosen by include graph stays Files[0]); half of the time it includes a file of
+		// the root's tree other than the root
+		f := &c09File{Path: "zz-other.journal"}
+		if n > 1 && r.IntN(2) == 0 {
+			f.Incs = []string{c09RelInclude(f.Path, names[1+r.IntN(n-1)])}
+			c.Count("ws.orphan.includes")
+		}
+		oi := o
+		oi.includes = f.Incs
+		f.Disk, f.DiskS = pool.journal(r, oi, 2+r.IntN(3))
+		switch x := r.IntN(4); {
+		case x < 2:
+			f.How, f.Buf, f.BufS = "open-same", f.Disk, f.DiskS
+		case x < 3:
+			f.How = "open-diff"
+			f.Buf, f.BufS = pool.journal(r, oi, 2+r.IntN(3))
+		default:
+			f.How = "changed"
+			f.Buf, f.BufS = pool.journal(r, oi, 2+r.IntN(3))
+		}
+		sc.Files = append(sc.Files, f)
+		n++
+		c.Count("ws.orphan")
+	}
 	anyOpen := false
 	for _, f := range sc.Files {
 		anyOpen = anyOpen || f.open()
@@ -864,17 +890,20 @@ func (s *c09Session) rel(p string) string {
 	return p
 }
 
-// resolvedFor mirrors Server.resolvedWithPrimaryPath through the exported accessors; the third
-// result tells whether the workspace view is used (positions of open files are then converted
-// with their buffers; otherwise only the requesting document's buffer is used, every other file
-// is read from disk).
-func (s *c09Session) resolvedFor(rel string) (*include.ResolvedJournal, string, bool) {
+// resolvedFor reports what Server.resolvedWithPrimaryPath can choose from for the document rel:
+// the workspace's resolved journal with the root journal's path, and the journal stored for the
+// document's own URI.  The choice itself is made by the model (HL.Refs.resolvedWithPrimaryPath),
+// and with it the choice of the texts positions are converted with (workspace view: the buffers of
+// the open files; own tree: the requesting document's buffer, every other file from disk).
+func (s *c09Session) resolvedFor(rel string) J {
+	out := J{"ws": nil, "wsroot": "", "own": s.resolvedJ(s.srv.GetResolved(s.uri(rel))), "cur": rel}
 	if ws := s.srv.Workspace(); ws != nil {
 		if r := ws.GetResolved(); r != nil {
-			return r, s.rel(ws.RootJournalPath()), true
+			out["ws"] = s.resolvedJ(r)
+			out["wsroot"] = s.rel(ws.RootJournalPath())
 		}
 	}
-	return s.srv.GetResolved(s.uri(rel)), rel, false
+	return out
 }
 
 func (s *c09Session) resolvedJ(r *include.ResolvedJournal) any {
@@ -1030,11 +1059,7 @@ func (s *c09Session) scope(cur string) []string {
 	for i, f := range s.sc.Files {
 		idx[f.Path] = i
 	}
-	start := cur
-	if s.sc.Mode == "ws" {
-		start = s.sc.Files[0].Path
-	}
-	seen := map[string]bool{}
+	var seen map[string]bool
 	var walk func(p string)
 	walk = func(p string) {
 		if seen[p] {
@@ -1046,7 +1071,16 @@ func (s *c09Session) scope(cur string) []string {
 			walk(filepath.Join(filepath.Dir(p), inc))
 		}
 	}
-	walk(start)
+	// with a workspace: the root's tree from the root and its member files; from a journal outside
+	// that tree, and without a workspace: the requesting file's own include tree
+	seen = map[string]bool{}
+	if s.sc.Mode == "ws" {
+		walk(s.sc.Files[0].Path)
+	}
+	if !seen[cur] {
+		seen = map[string]bool{}
+		walk(cur)
+	}
 	var out []string
 	for p := range seen {
 		out = append(out, p)
@@ -1150,9 +1184,8 @@ func (s *c09Session) run(reqs []c09Req, rename bool) map[string]any {
 	after := []any{}
 	for _, q := range reqs {
 		if _, ok := resIdx[q.Cur]; !ok {
-			r, pp, wsView := s.resolvedFor(q.Cur)
 			resIdx[q.Cur] = len(resolveds)
-			resolveds = append(resolveds, J{"r": s.resolvedJ(r), "pp": pp, "ws": wsView})
+			resolveds = append(resolveds, s.resolvedFor(q.Cur))
 		}
 		cj, _ := s.tree.parse(byPath[q.Cur].Buf)
 		reqJ = append(reqJ, J{"cur": q.Cur, "pos": []any{q.Line, q.Ch}, "incl": q.Incl, "new": hx(q.New),
@@ -1251,6 +1284,7 @@ func genC09(c *Ctx) {
 		}
 		s.close()
 	}
+	genC09Docs(c)
 }
 
 // replayC09 rebuilds the scenario from a recorded op (texts, how each file is open, order,
